@@ -318,16 +318,18 @@ impl Handle for MatcherHandle {
             return false;
         }
 
-        // don't consider changes that don't have both the table + col in the matcher query
+        // don't consider changes to tables that are not in the matcher query.
+        // NOTE: the changed column can't be used to rule a change out: an insert only
+        // lists the non-key columns (so a query that only reads key columns would never
+        // see new rows), and a remote change to any column brings the row into existence
+        // here when it arrives before the version that created it.
         if !self
             .inner
             .parsed
             .table_columns
-            .get(change.table.as_str())
-            .map(|cols| change.column.is_crsql_sentinel() || cols.contains(change.column.as_str()))
-            .unwrap_or_default()
+            .contains_key(change.table.as_str())
         {
-            trace!("could not match against parsed query table and columns");
+            trace!("could not match against parsed query tables");
             return false;
         }
 
